@@ -15,14 +15,14 @@ LEVEL_TEXT = ("Shadow-model monitor of the real Weaver: an independent model of 
               "in lock-step with the real object and compared after EVERY operation of a history (working == "
               "reference bit for bit while not reshaped; both equal to the model: bit for bit for shift / scale / "
               "truncate / append, to rounding for normalise / repeat; reshaping operations must leave the reference "
-              "bit-identical). Exhaustive over all histories of length <= 3 on a 26-letter alphabet (3 base series in "
+              "bit-identical). Exhaustive over all histories of length <= 3 on a 27-letter alphabet (3 base series in "
               "the thorough tier), random histories up to length 8 interleaved with reshaping operations, each "
               "followed by the recreate + match pipeline judged against the shadow reference, and a commutation pair.")
 LEVEL_NOTE = ("Trusts the 90-line docstring-derived model (models/domain_ops.py) which uses the same IEEE operations "
               "on its own copy of the data; after a rounding-level comparison the model is re-synchronised to the "
               "verified real state so that later exact comparisons stay meaningful.")
 TECHNIQUE = "shadow-model state monitor on the real Weaver after every step of enumerated and random operation histories"
-RULE = ("exhaustive: all sequences of length 0..3 over 26 letters (10 domain operations x 2-5 argument choices, truncation bounds as ratios, absolute values and mixed) per "
+RULE = ("exhaustive: all sequences of length 0..3 over 27 letters (10 domain operations x 2-5 argument choices, truncation bounds as ratios, absolute values and mixed) per "
         "base series; random: length 0..8 with random admissible arguments, 35% interleaved reshaping operations, then "
         "random strategy / n / rule pipeline and a shift/scale commutation pair. non-trivial: history contains >= 1 "
         "domain operation that changed the series; distinct by (base, letter sequence) or case index."
@@ -45,6 +45,7 @@ ALPHABET = [
     ("truncate_by_value", (0.3, 1.0, True, True)),
     ("truncate_by_value", (0.1, 6.0, True, False)), ("truncate_by_value", (1.0, 0.9, False, True)),   # mixed bounds
     ("truncate_by_index", (1, None)), ("truncate_by_index", (0, 4)), ("truncate_by_index", (2, 6)),
+    ("truncate_by_index", (0, -1)),                                   # drop the (incomplete) last sample
 ]
 BASES = [
     (np.array([0.0, 1.0, 2.0, 4.0, 5.0, 7.5, 8.0, 11.0]), np.array([3.0, 1.0, 4.0, 1.0, 5.0, 9.0, 2.0, 6.0])),
@@ -235,6 +236,8 @@ def random_domain_args(rng, op, x, y):
     if op == "truncate_by_index":
         start = int(rng.integers(0, max(1, n - 2)))
         stop = None if rng.integers(0, 3) == 0 else int(rng.integers(start + 2, n + 1))
+        if stop is not None and rng.integers(0, 4) == 0:
+            stop = stop - n if stop < n else -1 if n - start >= 3 else stop      # the same cut counted from the end
         return (start, stop)
     raise KeyError(op)
 
